@@ -166,8 +166,10 @@ def check(chk):
     R, _ = C.find_method(dur, 'deserialize')
     calls = [n for n in body_walk(W) if isinstance(n, ast.Call) and (chain(n.func) or ('',))[-1] == 'vints_pack']
     order_ok = False
-    if len(calls) == 1 and calls[0].args and isinstance(calls[0].args[0], (ast.List, ast.Tuple)):
-        names = [src(e) for e in calls[0].args[0].elts]
+    from ..sem import resolve as _resolve
+    arg0 = _resolve(W, calls[0].args[0]) if len(calls) == 1 and calls[0].args else None
+    if isinstance(arg0, (ast.List, ast.Tuple)):
+        names = [src(e) for e in arg0.elts]
         binds = {}
         for st in body_walk(W):
             if isinstance(st, ast.Assign) and isinstance(st.targets[0], ast.Tuple) and isinstance(st.value, ast.Tuple):
